@@ -221,6 +221,18 @@ def _object_group(rng, n):
     return [(st, max(nrd, 1 - st) if st < 0 else nrd, rep, r) for (st, nrd, rep, r) in specs]
 
 
+def _canon_runo(s):
+    """parse a `runo` reply into [(program, [per source sorted [(id, life)]])]"""
+    res = []
+    for part in s.split(" ") if s else []:
+        p, body = part.split("=", 1)
+        per_src = []
+        for grp in body[1:-1].replace("],[", "]|[").split("|") if body not in ("[]", "") else []:
+            per_src.append(sorted(tuple(int(v) for v in x.split("/")) for x in grp.strip("[]").split(",") if x))
+        res.append((int(p), per_src))
+    return res
+
+
 def object_stage(ctx):
     lines, cases, pos = [], [], []
     for _ in range(ctx.pick(400, 8000)):
@@ -233,15 +245,7 @@ def object_stage(ctx):
         lines += object_model_lines(n, groups, k, mode)
         pos.append(len(lines) - 1)
 
-    def canon(s):
-        res = []
-        for part in s.split(" ") if s else []:
-            p, body = part.split("=", 1)
-            per_src = []
-            for grp in body[1:-1].replace("],[", "]|[").split("|") if body not in ("[]", "") else []:
-                per_src.append(sorted(tuple(int(v) for v in x.split("/")) for x in grp.strip("[]").split(",") if x))
-            res.append((int(p), per_src))
-        return res
+    canon = _canon_runo
 
     out = LeanDriver("drv_heap").run(lines)
     for (n, groups, k, mode), at in zip(cases, pos):
@@ -266,6 +270,155 @@ def object_stage(ctx):
             ctx.count("object_cases_shared_second_program_faces_mutated_objects")
         ctx.nontrivial.add(("obj", mode, k, n, repr(groups)))
     ctx.sample({"object_case": cases[0]})
+
+
+# ---------------------------------------------------------------------------------------------
+# history stage: consecutive simulation numbers on ONE real Component, colliding ids, both orders
+# ---------------------------------------------------------------------------------------------
+def _snapshot(scn):
+    """deep value of a scenario dict {source id: [emission objects]} (ids, identity fields, life-cycle state)"""
+    return {k: [(e._emissions_id, e._start_date, e._rate, e._repairable, e._active_days, e.get_status()) for e in v]
+            for k, v in scn.items()}
+
+
+def history_case(n, first, second, k, mode):
+    """`first`, `second`: two scenarios (per source [(start, nrd, repairable, rate1024)], ids restart at 0 — so the
+    ids of the two scenarios collide while starts / rates differ).  On ONE real Component:
+    set_pregen_emissions(first, 0), k programs on copies, set_pregen_emissions(second, 1), k programs on copies.
+    Returns (faced by the programs of the second scenario, the same on a fresh Component that never saw `first`,
+    second-scenario input untouched?)"""
+    from harness.adapters import emission as E
+    from file_processing.output_processing.output_utils import EmisInfo, TsEmisData
+    from virtual_world.component import Component
+    from virtual_world.sources import Source
+
+    ns = max(len(first), len(second))
+
+    def scenario(groups, label):
+        out = {}
+        for gi in range(ns):
+            ems = []
+            for i, (st, nrd, rep, r) in enumerate(groups[gi] if gi < len(groups) else []):
+                e = E.make_emission(st, nrd, 0, rep, False, 1, 0, rate=r / 1024.0)
+                e._emissions_id = str(i)
+                e._verif_src = gi
+                e._verif_scn = label
+                ems.append(e)
+            out[f"S{gi}"] = sorted(ems, key=lambda e: e._start_date, reverse=True)
+        return out
+
+    def component():
+        srcs = [Source._reconstruct(f"S{gi}", True, True, 1, 0, True, {}, None, None, None, None, None, None, None,
+                                    "repairable") for gi in range(ns)]
+        return Component._reconstruct("comp", "comp_1", srcs, [], [], {})
+
+    def programs(comp, sim):
+        faced = []
+        for p in range(k):
+            target = copy.deepcopy(comp) if mode == "deepcopy" else pickle.loads(pickle.dumps(comp))
+            seen = [[] for _ in range(ns)]
+            for e in list(target._active_emissions) + list(target._inactive_emissions):
+                seen[e._verif_src].append((e._verif_scn, int(e._emissions_id), e._active_days))
+            for d in range(n):
+                before = len(target._active_emissions)
+                target.activate_emissions(E.SIM_START + timedelta(days=d), sim)
+                for e in target._active_emissions[before:]:
+                    seen[e._verif_src].append((e._verif_scn, int(e._emissions_id), e._active_days))
+                target.update_emissions_state(EmisInfo(), TsEmisData())
+            faced.append([sorted(x) for x in seen])
+        return faced
+
+    comp = component()
+    a, b = scenario(first, "first"), scenario(second, "second")
+    comp.set_pregen_emissions(a, 0)
+    programs(comp, 0)
+    before = _snapshot(b)
+    comp.set_pregen_emissions(b, 1)
+    after_history = programs(comp, 1)
+    untouched = _snapshot(b) == before
+    alone_comp = component()
+    b2 = scenario(second, "second")
+    alone_comp.set_pregen_emissions(b2, 1)
+    alone = programs(alone_comp, 1)
+    return after_history, alone, untouched
+
+
+def history_oracle(n, first, second, k, mode, after_history, alone, untouched):
+    out = []
+    ns = max(len(first), len(second))
+    want = [sorted(("second", i, 0) for i, (st, nrd, rep, r) in enumerate(second[gi] if gi < len(second) else [])
+                   if st <= n - 1) for gi in range(ns)]
+    if after_history != alone:
+        out.append(("C01:history-dependent", f"{mode}: what the programs of a simulation number face depends on the "
+                                             f"simulation number that ran before on the same infrastructure object"))
+    if any(f != want for f in after_history):
+        out.append(("C01:history-not-pristine", f"{mode}: after an earlier simulation number a program does not face the "
+                                                f"pristine scenario of its own simulation number"))
+    if not untouched:
+        out.append(("C01:copy-not-isolating", f"{mode}: running programs on copies changed the loaded scenario"))
+    return out
+
+
+def history_stage(ctx):
+    lines, cases, pos = [], [], []
+    for _ in range(ctx.pick(150, 3000)):
+        n = ctx.rng.randint(1, 8)
+        x = [_object_group(ctx.rng, n) for _ in range(ctx.rng.choice([1, 2]))]
+        y = [_object_group(ctx.rng, n) for _ in range(ctx.rng.choice([1, 2]))]
+        k = ctx.rng.randint(1, 2)
+        mode = ctx.rng.choice(["deepcopy", "pickle"])
+        for first, second in ((x, y), (y, x)):     # both orders
+            cases.append((n, first, second, k, mode))
+            ns = max(len(first), len(second))
+            lines += object_model_lines(n, [second[gi] if gi < len(second) else [] for gi in range(ns)], k, mode)
+            pos.append(len(lines) - 1)
+    out = LeanDriver("drv_heap").run(lines)
+    for (n, first, second, k, mode), at in zip(cases, pos):
+        after_history, alone, untouched = history_case(n, first, second, k, mode)
+        ctx.evaluations += 1
+        ctx.traces += 1
+        inp = {"history_case": {"n": n, "first": [[list(s) for s in g] for g in first],
+                                "second": [[list(s) for s in g] for g in second], "k": k, "mode": mode}}
+        # the model has no cross-case state: its answer for `second` alone
+        model = [(p, per_src) for p, per_src in _canon_runo(out[at])]
+        impl = [(p, [[(i, life) for _, i, life in src] for src in f]) for p, f in enumerate(after_history)]
+        if model != impl:
+            ctx.disagree("heap/history-" + mode, inp, out[at], str(impl))
+        for sig, what in history_oracle(n, first, second, k, mode, after_history, alone, untouched):
+            ctx.violate(sig, what, inp)
+        ctx.count("history_cases_" + mode)
+        ctx.nontrivial.add(("hist", mode, k, n, repr(first), repr(second)))
+    ctx.sample({"history_case": cases[0]})
+
+
+# ---------------------------------------------------------------------------------------------
+# __reduce__ round trips of every class with a positional reconstructor (argument order!)
+# ---------------------------------------------------------------------------------------------
+def reduce_roundtrip_stage(ctx):
+    """`cls._reconstruct(*sentinels).__reduce__()` must give back `(cls._reconstruct, sentinels)` in the same
+    order: a swapped pair on either side garbles every object that is deep-copied or pickled to a worker"""
+    import inspect
+    from virtual_world.component import Component
+    from virtual_world.equipment_groups import Equipment_Group
+    from virtual_world.infrastructure import Infrastructure
+    from virtual_world.sites import Site
+    from virtual_world.sources import Source
+
+    for cls in (Infrastructure, Site, Equipment_Group, Component, Source):
+        ctx.evaluations += 1
+        try:
+            params = list(inspect.signature(cls._reconstruct).parameters)
+            sent = tuple(f"<{cls.__name__}:{i}:{p}>" for i, p in enumerate(params))
+            obj = cls._reconstruct(*sent)
+            fn, args = obj.__reduce__()[:2]
+            again = fn(*args)
+            ok = tuple(args) == sent and again.__dict__ == obj.__dict__ and type(again) is cls
+        except Exception as exc:  # an unexpected shape is a broken tie, not a harness error
+            ctx.broke(f"__reduce__ round trip of {cls.__name__}", repr(exc))
+            continue
+        if not ok:
+            ctx.disagree("heap/reduce-roundtrip", {"class": cls.__name__}, list(sent), [str(a) for a in args])
+        ctx.count("reduce_roundtrips_checked")
 
 
 # ---------------------------------------------------------------------------------------------
@@ -455,6 +608,35 @@ def whole_jobs(ctx):
         cfg3["programs"] = list(cfg["programs"]) + [{"name": "P_OGIb", "methods": ["OGI"]},
                                                      {"name": "P_airb", "methods": ["AIR", "OGI_FU"]}]
         jobs.append((cfg3, False, 1))
+    jobs = [(c, d, p, ("debug", "pool", "chunked")[i % 3]) for i, (c, d, p) in enumerate(jobs)]
+    # boundary periods, put in on purpose (the oracle compares calendar dates of the records with the calendar
+    # dates of the pickled scenario — no day-index arithmetic of the simulator is consulted): a period that
+    # starts on Dec 30, straddles New Year, contains Feb 29 and ends on day-of-year 366; a 2-day period
+    # Feb 28 -> Feb 29; a 1-day period on day-of-year 366; a 2-day period Dec 30 -> Dec 31 of a leap year.
+    # (Periods whose end (month, day) lies before the start's — e.g. Dec 31 -> Jan 1 — are the shape in which
+    # the survey planner crashes with KeyError <year>, recorded under C06; they are not generated here.)
+    # Site ids: unsorted integers whose numeric and lexicographic orders differ; pre-existing emissions on,
+    # both source kinds productive
+    periods = [([2023, 12, 30], [2024, 12, 31]), ([2024, 2, 28], [2024, 2, 29]),
+               ([2024, 12, 31], [2024, 12, 31]), ([2024, 12, 30], [2024, 12, 31])]
+    odd_ids = [30, 4, 100, 7, 25, 12, 9, 1000, 2, 51]
+    for j, (st, en) in enumerate(periods[:ctx.pick(2, 4)]):
+        cfg = W.make_config(ctx.rng, n_sims=2, n_sites=4, start=st, end=en, granular=(j % 2 == 1),
+                            rep={"epr": 0.03125, "duration": 60, "multi": j % 2 == 0},
+                            nonrep={"epr": 0.015625, "duration": 45, "multi": True}, pre_sim_emissions=True)
+        if len(cfg["programs"]) < 4:
+            cfg["programs"].append({"name": "P_fix", "methods": ["FIX", "OGI_FU2"]})
+        for k, site in enumerate(cfg["sites"]):
+            site["id"] = odd_ids[k]
+        jobs.append((cfg, True, 1, "debug"))
+        if not ctx.quick or j == 1:
+            jobs.append((dict(cfg), False, 2, "pool"))
+    if not ctx.quick:
+        # exactly one batch (5) and one batch plus two (7) simulation numbers
+        for ns in (5, 7):
+            cfg = W.make_config(ctx.rng, n_sims=ns, ndays=90, n_sites=4)
+            jobs.append((cfg, True, 1, "debug"))
+            jobs.append((dict(cfg), False, 2, "pool"))
     return jobs
 
 
@@ -469,42 +651,64 @@ def whole_stage(ctx):
     last_log = ""
     crashed = []
     try:
-        for k, ((cfg, debug, procs), res) in enumerate(zip(jobs, results)):
+        for k, ((cfg, debug, procs, label), res) in enumerate(zip(jobs, results)):
             mode = {"debug": debug, "processes": procs, "program_order": [p["name"] for p in cfg["programs"]],
                     "n_sims": cfg["n_sims"]}
+            sims = list(range(res.n_sims))
             if res.rc != 0:
                 ctx.count("wholerun_config_crashed")
                 ctx.note("whole run crashed: " + res.log.strip().splitlines()[-1][:200])
                 last_log = res.log
                 crashed.append((cfg, mode, res.log))
-                continue
-            ok_modes[("debug", "pool", "chunked")[k % 3]] += 1
-            for sim in range(res.n_sims):
+                # never a silent skip: the simulation numbers every program finished before the crash are judged
+                sims = [sm for sm in sims
+                        if os.path.exists(os.path.join(res.root, "inputs", "generator", f"gen_infrastructure_emissions_{sm}.p"))
+                        and all(res.emissions(p, sm) is not None and res.timeseries(p, sm) is not None for p in res.programs)]
+                ctx.count("wholerun_simulations_of_crashed_runs_judged", len(sims))
+            else:
+                ok_modes[label] += 1
+            for sim in sims:
                 judge_simulation(ctx, res, cfg, mode, sim)
-            ctx.sample({"whole_run": mode, "sites": cfg["n_sites"], "granular": cfg["granular"]}, cap=8)
+            if res.rc != 0:
+                continue
+            ctx.sample({"whole_run": mode, "sites": cfg["n_sites"], "granular": cfg["granular"],
+                        "period": [cfg["start"], cfg["end"]]}, cap=8)
             ctx.count("wholerun_runs")
             ctx.count("wholerun_runs_n_sims_%d" % cfg["n_sims"])
             if cfg.get("site_extra_cols"):
                 ctx.count("wholerun_runs_with_site_deployment_columns")
+            if res.ndays <= 2:
+                ctx.count("wholerun_runs_period_of_1_or_2_days")
+            if res.start.year != res.end.year:
+                ctx.count("wholerun_runs_straddling_new_year")
+            if any(date(y, 2, 29) >= res.start and date(y, 2, 29) <= res.end for y in (2020, 2024, 2028)):
+                ctx.count("wholerun_runs_containing_feb_29")
+            if [st["id"] for st in cfg["sites"]] != sorted(st["id"] for st in cfg["sites"]):
+                ctx.count("wholerun_runs_unsorted_site_ids")
             if not cfg["granular"] and cfg["rep"]["epr"] > 0 and cfg["nonrep"]["epr"] > 0:
                 ctx.count("wholerun_runs_components_with_two_productive_sources")
-        # a crash is judged by the property that owns it — unless it depends on HOW the programs are
-        # scheduled: the same configuration completes when its programs are simulated one after another in
-        # debug mode but not in the pool.  "in whatever order or process the programs are simulated" is C01's.
+        # a crash that depends on HOW the programs are scheduled is a failing input of C01 ("in whatever order
+        # or process the programs are simulated"): the same configuration completes when its programs are
+        # simulated one after another in debug mode but not in the pool.  Any other crash of a generated, valid
+        # configuration is a broken obligation of this check (the run it needs does not exist) — reported, with
+        # the search for a failing input continuing on everything else.
         for cfg, mode, log in crashed:
-            if mode["debug"]:
-                continue
-            sig = crash_depends_on_schedule(cfg)
+            sig = None if mode["debug"] else crash_depends_on_schedule(cfg)
             if sig:
                 ctx.violate(sig, "a configuration completes in debug mode but crashes when the same programs are "
                                  "simulated in a process pool: " + log.strip().splitlines()[-1][:200],
                             {"cfg": cfg, "mode": mode})
+            else:
+                ctx.broke("whole run of a generated configuration crashed (%s)" % ("debug" if mode["debug"] else "pool, and in debug"),
+                          json.dumps({"mode": mode, "start": cfg["start"], "end": cfg["end"]}) + "\n" + log[-1500:])
         ctx.extra["wholerun_ok_by_mode"] = ok_modes
         # guard: the whole-run stage carries the tie of the non-interference half to the code; a run of
-        # the check in which a mode never completed (and no failing input explains it) proves nothing
+        # the check in which a mode never completed proves nothing about it
         dead = [m for m, n in ok_modes.items() if n == 0]
-        if dead and not ctx.violations:
-            raise core.InfraError("every whole run crashed in mode(s) %s (infrastructure): %s" % (dead, last_log[-1500:]))
+        if dead and not crashed:
+            raise core.InfraError("no whole run was scheduled in mode(s) %s" % dead)
+        if dead:
+            ctx.broke("no whole run completed in mode(s) %s" % dead, last_log[-1500:])
     finally:
         for res in results:
             res.cleanup()
@@ -530,13 +734,20 @@ def run(ctx):
                 "object-level interpreter; whole runs: generated configurations with 4 programs in debug mode and in pools "
                 "of 2-4 processes with shuffled program order, 6 programs on a 1-process pool, with 1, 2 and 6 simulation "
                 "numbers; distinct by list / object case / (mode, order, simulation number, #emissions)")
-    facts = wiring.extract()
-    wiring.write(facts)
-    ctx.extra["wiring_table"] = {k: v for k, v in facts.items() if k not in ("reduceArgs", "initAttrs")}
-    ctx.extra["wiring_reduce_classes"] = [c for c, _ in facts["reduceArgs"]]
+    try:
+        facts = wiring.extract()
+        wiring.write(facts)
+        ctx.extra["wiring_table"] = {k: v for k, v in facts.items() if k not in ("reduceArgs", "initAttrs")}
+        ctx.extra["wiring_reduce_classes"] = [c for c, _ in facts["reduceArgs"]]
+    except (RuntimeError, SyntaxError, OSError, KeyError) as exc:
+        # an unexpected shape of the source: the table obligations cannot be established for this tree.
+        # Broken obligation (the stale table is NOT trusted), and the search for a failing input goes on.
+        ctx.broke("wiring extractor (Generated/Wiring.lean could not be regenerated)", repr(exc))
     core.lean_stage(ctx, MODULE, FILE, drivers=["drv_heap"])
     source_stage(ctx)
     object_stage(ctx)
+    history_stage(ctx)
+    reduce_roundtrip_stage(ctx)
     whole_stage(ctx)
 
 
@@ -587,6 +798,18 @@ def replay(ctx, data):
         for s, what in raised:
             print("oracle:", s, "-", what)
         still = any(s == sig for s, _ in raised) if sig else bool(raised)
+        print("replay:", "still fails" if still else "no longer fails")
+        return 1 if still else 0
+    if "history_case" in inp:
+        c = inp["history_case"]
+        first = [[tuple(x) for x in g] for g in c["first"]]
+        second = [[tuple(x) for x in g] for g in c["second"]]
+        res = history_case(c["n"], first, second, c["k"], c["mode"])
+        raised = history_oracle(c["n"], first, second, c["k"], c["mode"], *res)
+        print("faced after history:", res[0], "\nfaced alone        :", res[1])
+        for s_, what in raised:
+            print("oracle:", s_, "-", what)
+        still = any(s_ == sig for s_, _ in raised) if sig else bool(raised)
         print("replay:", "still fails" if still else "no longer fails")
         return 1 if still else 0
     print("replay: nothing executable in this file (broken-obligation record):")
